@@ -35,8 +35,8 @@ EXIT_BY_DESIGN = {
 
 TIERS = dict(
     quick=dict(full=('go', 'public', 'cli'), workers=12, mem_kb=4194304, per_call=20,
-               grid={'go': (6, 4, 3), 'public': (6, 4, 3), 'cli': (6, 4, 3), 'internal': (3, 2, 2), 'generated': (3, 2, 2)},
-               frac={'internal': 0.3, 'generated': 0.2}, generated_names=12, opt_budget=1000, pairs=False),
+               grid={'go': (5, 4, 3), 'public': (5, 4, 3), 'cli': (5, 4, 3), 'internal': (3, 2, 2), 'generated': (3, 2, 2)},
+               frac={'internal': 0.15, 'generated': 0.15}, generated_names=8, opt_budget=600, pairs=False),
     thorough=dict(full=('go', 'public', 'cli', 'internal', 'generated'), workers=12, mem_kb=4194304, per_call=20,
                   grid={'go': (6, 6, 4), 'public': (6, 6, 4), 'cli': (6, 6, 4), 'internal': (6, 4, 3), 'generated': (6, 4, 3)},
                   frac={}, generated_names=None, opt_budget=40000, pairs=True),
@@ -111,7 +111,7 @@ class Runner:
         self.n = 0
         self.done = {}     # (f, vals, variant) -> event
         self.events = []
-        self.stalls = 0
+        self.carry = []    # calls that stalled once in a run with deferred confirmation: (key, call, job)
 
     def expr(self, fn, vals, pool):
         binds, args = [], []
@@ -122,9 +122,15 @@ class Runner:
         call = fn['fn'] + ('(%s)' % '; '.join(args) if args else '')
         return '%s%s | [limit(50; $v0 | _c13r(%s))] | %s + tojson' % (PRELUDE, ' | '.join(binds), call, MARK)
 
-    def run(self, calls, pool, fns, name):
-        """calls: list of dict(f (1-based), pos, vals [, variant, job]) -> events (deduplicated against earlier phases)."""
+    def run(self, calls, pool, fns, name, defer_stalls=False):
+        """calls: list of dict(f (1-based), pos, vals [, variant, job]) -> events (deduplicated against earlier phases).
+        defer_stalls: a call that stalls is not re-run now but handed to the next run, which starts its solitary
+        re-runs at once, beside its own pool."""
         todo, jobs = [], []
+        for key, c, job in self.carry:
+            todo.append((key, c))
+            jobs.append(dict(job, confirm=True))
+        self.carry = []
         for c in calls:
             key = (c['f'], tuple(c['vals']), c.get('variant', ''))
             if key in self.done:
@@ -136,6 +142,7 @@ class Runner:
             # standard output is a (virtual) terminal unless the call says otherwise: a binary result is then shown as a
             # truncated hex dump, as in interactive use, instead of being copied raw (2 GiB for `"a" | tobytes(2147483648)`)
             job.setdefault('tty', True)
+            job['key'] = '%s/%d' % (fn['fn'], fn['arity'])
             todo.append((key, c))
             jobs.append(job)
         if not jobs:
@@ -145,19 +152,26 @@ class Runner:
         rp = os.path.join(self.ctx.build, '%s_res.ndjson' % name)
         vlib.write_ndjson(jp, jobs)
         cfg = self.cfg
-        self.ctx.run([self.bin, 'run', jp, rp, str(cfg['workers']), str(cfg['mem_kb']), str(cfg['per_call'])], check=True, timeout=7200)
+        self.ctx.run([self.bin, 'run', jp, rp, str(cfg['workers']), str(cfg['mem_kb']), str(cfg['per_call'])] + (['defer'] if defer_stalls else []),
+                     check=True, timeout=7200)
         res = vlib.read_ndjson(rp)
         if len(res) != len(jobs):
             raise Inconclusive('c13 run lost results (%d of %d)' % (len(res), len(jobs)))
         evs = []
         for (key, c), r, job in zip(todo, res, jobs):
             fn = fns[c['f'] - 1]
+            if r['outcome'] == 'stall':
+                job.pop('confirm', None)
+                self.carry.append((key, c, job))
+                continue
             ev = dict(f=c['f'], fn=fn['fn'], arity=fn['arity'], pos=c['pos'], vals=list(c['vals']), outcome=r['outcome'],
-                      msg=r['msg'][:160] if r['outcome'] in ('results', 'error', 'mixed', 'exit') else r['msg'][:6000],
+                      msg=r['msg'][:160] if r['outcome'] in ('results', 'error', 'mixed', 'exit') else r['msg'][:8000],
                       arm=c.get('arm', name), variant=c.get('variant', ''), ms=r['ms'])
             ev['_expr'] = job['expr']
+            job.pop('confirm', None)
             ev['_job'] = job
             ev['_stalls'] = r.get('stalls', 0)
+            ev['_attributed'] = bool(r.get('attributed'))
             if r['outcome'] == 'exit' and re.search(r'function not defined|: parse: |: compile: ', r['msg']) and not fn['fn'].startswith(('_eval', 'eval', '_repl', 'repl', '_cli', '_main', 'slurp', '_slurp', '_help')):
                 raise Inconclusive('harness program did not compile for %s/%d: %s' % (fn['fn'], fn['arity'], r['msg'][:200]))
             self.done[key] = ev
@@ -172,7 +186,7 @@ SCORE = {'results': 3, 'mixed': 2, 'exit': 1, 'error': 0}
 def grid_values(pool, k):
     ben = [p['id'] for p in pool if p['benign']]     # null, one, str_a, bin_ab, arr_plain, obj_plain
     byname = {p['name']: p['id'] for p in pool}
-    order = [byname[n] for n in ('obj_plain', 'str_a', 'null', 'one', 'bin_ab', 'arr_plain')]
+    order = [byname[n] for n in ('obj_plain', 'str_a', 'one', 'arr_plain', 'null', 'bin_ab')]
     assert sorted(order) == sorted(ben)
     return order[:k]
 
@@ -183,8 +197,8 @@ def product(vals, n):
     return [[v] + r for v in vals for r in product(vals, n - 1)]
 
 
-def top_fq_frame(msg):
-    """(top frame under github.com/wader/fq outside the harness, top frame of a dependency above it or None)"""
+def stack_functions(msg):
+    """function names of the faulting goroutine, innermost first (harness frames and runtime noise removed)"""
     lines = msg.split('\n')
     start = 0
     for i, l in enumerate(lines):
@@ -195,37 +209,53 @@ def top_fq_frame(msg):
             if re.match(r'goroutine \d+ .*\[running', l):
                 start = i + 1
                 break
-    dep = None
+    out = []
     for l in lines[start:]:
-        l = l.strip()
-        if not l or l.startswith('/') or l.startswith('\t') or ' ' in l.split('(')[0] and not l.startswith('github.com'):
+        if l.startswith('goroutine ') and out:
+            break
+        if not l or l[0] in ' \t' or '(' not in l or l.startswith(('goroutine ', 'created by ')):
             continue
-        m = re.match(r'([A-Za-z0-9_./\-]+(?:\.\(\*?[A-Za-z0-9_\[\],.*/ ]+\))?(?:\.[A-Za-z0-9_\[\].]+)*)\(', l)
-        if not m:
+        f = l[:l.rindex('(')]
+        if f.startswith(('runtime.', 'runtime/', 'panic', 'internal/', 'sync.', 'reflect.', 'syscall.', 'os.', 'io.', 'strings.', 'bytes.', 'math/', 'main.')):
             continue
-        f = m.group(1)
-        if f.startswith(('runtime.', 'runtime/', 'panic', 'internal/', 'sync.', 'reflect.')):
+        if 'internal/verif/' in f:
             continue
-        if f.startswith('github.com/wader/fq/'):
-            f = f[len('github.com/wader/fq/'):]
-            if f.startswith('internal/verif/'):
-                break
-            f = re.sub(r'\[\.\.\.\]', '', f)
-            return f, dep
-        if dep is None:
-            dep = f
-    return None, dep
+        out.append(f)
+    return out
+
+
+FQ = 'github.com/wader/fq/'
+GENERIC = ('pkg/interp.(*Interp).Eval', 'pkg/interp.iterFn', 'pkg/interp.(*Interp).Main', 'pkg/interp.(*Interp).EvalFunc')
+
+
+def clean(f):
+    f = f[len(FQ):] if f.startswith(FQ) else f
+    f = re.sub(r'\[[^\]]*\]', '', f)
+    return re.sub(r'(\.func\d+(\.\d+)*)+$', '', f)
 
 
 def fault_sig(ev):
-    frame, dep = top_fq_frame(ev['msg'])
-    if dep and dep.startswith('github.com/wader/gojq'):
-        where = 'gojq:' + dep.split('/')[-1]
-    elif frame:
-        where = frame
+    """total:<fn>/<arity>:<fault class>:<frame>.  panic: the innermost fq function (or `gojq:<function>` when the panic is
+    inside the gojq dependency with no fq function on top).  hang / fatal-*: where the stack happens to be is not
+    stable, so the frame is the fq Go function that jq called (the frame above the Register{Func,Iter}N glue), or
+    `jq-eval` when the work is in jq-defined code."""
+    fs = stack_functions(ev['msg'])
+    fq = [f for f in fs if f.startswith(FQ) and not clean(f).startswith(GENERIC)]
+    dep = next((f for f in fs if not f.startswith(FQ) and '/' in f), None)
+    where = None
+    if ev['outcome'] == 'panic':
+        if fs and not fs[0].startswith(FQ) and fs[0].startswith('github.com/wader/gojq') and (not fq or re.search(r'\.Register(Func|Iter)\d', fq[0])):
+            where = 'gojq:' + clean(fs[0].split('/')[-1])
+        elif fq:
+            where = clean(fq[0])
     else:
-        where = dep or 'unknown'
-    where = re.sub(r'[^A-Za-z0-9_.:()*/\-]', '', where)
+        for k, f in enumerate(fs):
+            if re.search(r'\.Register(Func|Iter)\d', f) and k > 0 and fs[k - 1].startswith(FQ):
+                where = clean(fs[k - 1])
+                break
+        if where is None:
+            where = 'jq-eval' if fs else 'unknown'
+    where = re.sub(r'[^A-Za-z0-9_.:()*/\-]', '', where or (dep and clean(dep)) or 'unknown')
     return 'total:%s/%d:%s:%s' % (ev['fn'], ev['arity'], ev['outcome'], where), dep
 
 
@@ -307,7 +337,7 @@ def run(ctx):
         gv = grid_values(pool, k)
         for vals in product(gv, f['arity'] + 1):
             calls.append(dict(f=f['i'], pos=-1, vals=vals))
-    evA = R.run(calls, pool, fns, 'grid')
+    evA = R.run(calls, pool, fns, 'grid', defer_stalls=True)
     best = {}
     for ev in evA:
         s = SCORE.get(ev['outcome'], -1)
@@ -402,10 +432,14 @@ def run(ctx):
     calls.sort(key=lambda c: 0 if heavy & set(c['vals']) else 1)
     evB = R.run(calls, pool, fns, 'sweep')
 
+    if R.carry:
+        raise Inconclusive('unconfirmed stalls left over')
     events = R.events
     ctx.cov['calls'] = dict(collections.Counter(e['arm'] for e in events), total=len(events))
     ctx.cov['evaluations'] += len(events)
     ctx.cov['outcomes'] = dict(collections.Counter(e['outcome'] for e in events))
+    ctx.cov['hangs'] = dict(confirmed_by_two_solitary_reruns=sum(1 for e in events if e['outcome'] == 'hang' and not e['_attributed']),
+                            attributed_to_confirmed_hang_of_same_function=sum(1 for e in events if e['outcome'] == 'hang' and e['_attributed']))
     ctx.cov['stalled_then_completed_on_rerun'] = sum(1 for e in events if e['outcome'] != 'hang' and e['_stalls'])
     triples = set()
     for e in events:
